@@ -187,3 +187,11 @@ Proof.
     - apply (first_remote_pattern_sound _ _ H). }
   unfold bad_addr in Hb. apply orb_false_iff in Hb. destruct Hb as [Hb H3]. apply orb_false_iff in Hb. tauto.
 Qed.
+
+Lemma remote_ip_total : forall p caps,
+  remote_ip p caps = None
+  \/ exists ip, remote_ip p caps = Some ip /\ is_local ip = false /\ is_unspecified ip = false /\ is_loopback ip = false.
+Proof.
+  intros p caps. destruct (remote_ip p caps) as [ip|] eqn:E; [right|left; reflexivity].
+  exists ip. split; [reflexivity|]. apply (remote_ip_sound p caps ip E).
+Qed.
